@@ -75,11 +75,19 @@ STRENGTHENED4 = {
     ("C17", "2"): "not widened: the change is in Density.rigid_transform, whose exactness is C06's property - the C06 check reports it (the C17 check builds its moved templates itself)",
     ("C18", "2"): "C18: a result file that cannot be reloaded from the check's directory is now a clause failure with its input (first pass: harness crash, no-failing-input-found)",
 }
+STRENGTHENED5 = {
+    ("C01", "1"): "C01 now has non-cubic templates of equal parity under quarter turns that exchange two unequal axes (the turned template is cut to its own box), CC at orders 1/3 and FLC at order 1, against the spatial-domain definition",
+    ("C03", "1"): "C03 invariance / planted streams now scale the template down to 1e-8 / 1e-9 (spread below float32 eps, far above underflow)",
+    ("C06", "2"): "C06 order-1 stream now has exact rational rotations of 0.04-0.25 degrees (inside every default isclose tolerance) on boxes of 8-13 voxels",
+    ("C16", "1"): "C16 now raises the callback-phase fault of peak callers from inside call_peaks (below whatever PeakCaller.__call__ wraps around it), TypeError included",
+    ("C17", "2"): "C17 planted FLC stream now has a target mask that removes a bright neighbour reaching into the planted window (template = window of the masked target)",
+    ("C18", "2"): "C18 integral-centre-of-mass family now carries negative density in empty voxels of the particle's bounding box (signed mean 0.9-1.7 voxels away from the centre of mass of the positive density)",
+}
 import sys
 ROUND = int(sys.argv[1]) if len(sys.argv) > 1 else 1
-ROOT = {1: "/tmp/seed", 2: "/tmp/seed2", 3: "/tmp/seed3", 4: "/tmp/seed4"}[ROUND]
+ROOT = {1: "/tmp/seed", 2: "/tmp/seed2", 3: "/tmp/seed3", 4: "/tmp/seed4", 5: "/tmp/seed5"}[ROUND]
 if ROUND >= 2:
-    STRENGTHENED = {2: STRENGTHENED2, 3: STRENGTHENED3, 4: STRENGTHENED4}[ROUND]
+    STRENGTHENED = {2: STRENGTHENED2, 3: STRENGTHENED3, 4: STRENGTHENED4, 5: STRENGTHENED5}[ROUND]
     first = {}
     for d in sorted(glob.glob(ROOT + "/C*/out/[12]")):
         rf = os.path.join(d, "result_first.json")
